@@ -16,6 +16,13 @@ import RtcModel.C07Sctp
 namespace RtcModel.C07.SctpSt
 open RtcModel.C07 RtcModel.Generated RtcModel.C07.Sctp
 
+/-- `x.wrapping_sub(1)` / `x.wrapping_add(k)` / `a.wrapping_sub(b)` on u32 values (arguments are < 2^32: they come from
+`get_u32` or from these functions). Written without `variable + huge literal` so that the kernel never has to normalise
+such a sum when it compares association states. -/
+def u32pred (x : Nat) : Nat := if x = 0 then 4294967295 else x - 1
+def u32add (x k : Nat) : Nat := (x + k) % 4294967296
+def u32sub (a b : Nat) : Nat := if b ≤ a then a - b else 4294967296 - (b - a)
+
 structure St where
   cum : Nat := 0
   queue : List (Nat × Nat × Array UInt8) := []      -- received_queue: (tsn, flags, chunk value)
@@ -68,7 +75,7 @@ def processData (s : St) (v : Array UInt8) : Cur St := do
 def drainBody (cum : Nat) (st : List (Nat × Nat × Array UInt8) × List (Nat × Nat × Array UInt8)) :
     Cur ((List (Nat × Nat × Array UInt8) × List (Nat × Nat × Array UInt8)) ⊕
          (List (Nat × Nat × Array UInt8) × List (Nat × Nat × Array UInt8))) :=
-  let next := (cum + 1 + st.1.length) % 4294967296
+  let next := u32add cum (1 + st.1.length)
   match st.2.find? (fun e => e.1 = next) with
   | some e => pure (.inl (e :: st.1, st.2.filter (fun x => x.1 ≠ next)))
   | none => pure (.inr (st.1.reverse, st.2))
@@ -79,13 +86,13 @@ def processBatch : St → List (Nat × Nat × Array UInt8) → Cur St
   | s, e :: rest => do
     let s ← processData s e.2.2
     if s.failed then pure s else                          -- `?`: the rest of the batch is dropped, cum not advanced
-    processBatch { s with cum := (s.cum + 1) % 4294967296 } rest
+    processBatch { s with cum := u32add s.cum 1 } rest
 
 /-- `handle_data(flags, chunk)` -/
 def handleDataSt (s : St) (flags : Nat) (v : Array UInt8) : Cur St := do
   if v.size < 12 then pure s else
   let tsn ← be32 v 0
-  let diff := (tsn + 4294967296 - s.cum) % 4294967296
+  let diff := u32sub tsn s.cum
   if diff = 0 ∨ diff > 2147483648 then pure s else
   if diff = 1 ∧ s.queue.isEmpty then
     let s ← processData s v
@@ -116,7 +123,7 @@ def handleInitSt (s : St) : Cur St := do
   let tsn ← getU32
   let duplicate := s.hasTag ∧ s.remoteTag = tag
   if duplicate ∧ s.state = 1 then pure s else
-  pure ({ s with peerRwnd := rwnd, remoteTag := tag, cum := (tsn + 4294967295) % 4294967296, hasTag := true }.emit [2])
+  pure ({ s with peerRwnd := rwnd, remoteTag := tag, cum := u32pred tsn, hasTag := true }.emit [2])
 
 /-- `handle_init_ack(chunk)`: only while the T1 timer holds our INIT -/
 def handleInitAckSt (s : St) : Cur St := do
@@ -130,8 +137,8 @@ def handleInitAckSt (s : St) : Cur St := do
   let fuel := (← remaining) + 1
   let c ← loopM cookieWalkBody fuel none
   match c with
-  | some ck => pure ({ s with t1 := 2, peerRwnd := rwnd, remoteTag := tag, cum := (tsn + 4294967295) % 4294967296 }.emit [10, foldA ck, ck.size])
-  | none => pure { s with t1 := 0, peerRwnd := rwnd, remoteTag := tag, cum := (tsn + 4294967295) % 4294967296 }
+  | some ck => pure ({ s with t1 := 2, peerRwnd := rwnd, remoteTag := tag, cum := u32pred tsn }.emit [10, foldA ck, ck.size])
+  | none => pure { s with t1 := 0, peerRwnd := rwnd, remoteTag := tag, cum := u32pred tsn }
 
 def handleSackSt (s : St) : Cur St := do
   if (← remaining) ≥ 12 then
